@@ -140,7 +140,7 @@ fn enc_rlp(x: &BigUint) -> Vec<u8> {
     out
 }
 
-fn contents(len: usize) -> Vec<Vec<u8>> {
+fn contents(len: usize, th: bool) -> Vec<Vec<u8>> {
     if len == 0 {
         return vec![vec![]];
     }
@@ -164,22 +164,30 @@ fn contents(len: usize) -> Vec<Vec<u8>> {
     ];
     let probe: Vec<u8> = (0..len).map(|i| (i % 126 + 1) as u8).collect();
     v.push(probe);
+    if th {
+        // thorough: EVERY value of the first octet, and EVERY value of the second octet after a leading 00 (the sign-octet rule)
+        for b in 0..=255u8 {
+            v.push(mk(&[b], 0x11));
+            v.push(mk(&[0x00, b], 0x33));
+            v.push(mk(&[b], 0x00));
+        }
+    }
     v.sort();
     v.dedup();
     v
 }
 
-fn der_inputs(cap: usize) -> Vec<Vec<u8>> {
+fn der_inputs(cap: usize, th: bool) -> Vec<Vec<u8>> {
     let mut out = Vec::new();
-    let tags = [0x02u8, 0x03, 0x22, 0x82, 0x04];
+    let tags: Vec<u8> = if th { (0..=255u8).collect() } else { vec![0x02u8, 0x03, 0x22, 0x82, 0x04] };
     for len in 0..=cap + 4 {
         // lengths near the boundaries in full, a stride in the middle of wide types
-        if cap > 64 && len > 6 && len + 8 < cap && len % 37 != 0 && !(126..=130).contains(&len) && !(254..=258).contains(&len) {
+        if !th && cap > 64 && len > 6 && len + 8 < cap && len % 37 != 0 && !(126..=130).contains(&len) && !(254..=258).contains(&len) {
             continue;
         }
-        for c in contents(len) {
+        for c in contents(len, th && cap <= 64) {
             for &tag in &tags {
-                if tag != 0x02 && c.first() != Some(&0x01) && c.first() != Some(&0x7f) {
+                if tag != 0x02 && (c.first() != Some(&0x01) && c.first() != Some(&0x7f) || c.get(1).is_some_and(|&x| x != 0x00 && x != 0xff)) {
                     continue; // wrong tags with two representative contents
                 }
                 // definite minimal length form
@@ -223,10 +231,10 @@ fn der_inputs(cap: usize) -> Vec<Vec<u8>> {
     out
 }
 
-fn rlp_inputs(cap: usize) -> Vec<Vec<u8>> {
+fn rlp_inputs(cap: usize, th: bool) -> Vec<Vec<u8>> {
     let mut out: Vec<Vec<u8>> = (0..=255u8).map(|b| vec![b]).collect();
     for len in 0..=cap + 4 {
-        for c in contents(len) {
+        for c in contents(len, th) {
             // short-string form (also used where the long form would be required: non-canonical / invalid)
             if len <= 55 {
                 let mut m = vec![0x80 + len as u8];
@@ -279,7 +287,7 @@ macro_rules! fam_der {
         let wname = format!("U{}", 64 * $n);
         let cap = 8 * $n;
         if ctx.want("der_decode") {
-            let inputs = der_inputs(cap);
+            let inputs = der_inputs(cap, ctx.thorough());
             ctx.par_for("der_decode", &wname, inputs.len(), |i, l| {
                 let m = &inputs[i];
                 let ins: [&[u64]; 0] = [];
@@ -353,7 +361,7 @@ macro_rules! fam_rlp {
         let wname = format!("U{}", 64 * $n);
         let cap = 8 * $n;
         if ctx.want("rlp_decode") {
-            let inputs = rlp_inputs(cap);
+            let inputs = rlp_inputs(cap, ctx.thorough());
             ctx.par_for("rlp_decode", &wname, inputs.len(), |i, l| {
                 let m = &inputs[i];
                 let ins: [&[u64]; 0] = [];
